@@ -238,10 +238,14 @@ def premainLine : String :=
 def szLine : String :=
   "float32_t=4 float64_t=8 atof32=4 atof64=8 strtod=8 strtod32=8 ftoa32arg=4 int=4 maxprec=" ++ toString MAX_PRECISION
 
+/-- op `tbl` (round 3b): the clamp and, for every precision, the canonical lines of 0.55e-p and 0.45e-p
+    (`(float)` of the double literal) -/
 def tblLine : String :=
-  toString MAX_PRECISION ++ String.join ((List.range (MAX_PRECISION + 1)).map fun i =>
-    let d : F64 := ⟨sfLit b64 5 (i + 1)⟩
-    " " ++ showF64 d ++ ":" ++ showF32 (rounder i : F32))
+  "maxprec=" ++ toString MAX_PRECISION ++ String.join ((List.range MAX_PRECISION).map fun i =>
+    let p := i + 1
+    let up : F32 := F64.toF32 ⟨sfLit b64 55 (p + 2)⟩
+    let dn : F32 := F64.toF32 ⟨sfLit b64 45 (p + 2)⟩
+    " " ++ f32Line up.bits p ++ " " ++ f32Line dn.bits p)
 
 def stepLine (_ : Unit) (line : String) : Unit × String :=
   let r : Option String :=
